@@ -40,6 +40,11 @@ def spec(tier):
     u = mkunit(units, L=2)
     jobs.append(dict(unit=u, entry="h_cbor_ints", unwind=10, bounds="value unconstrained 64-bit; uint/negint/tag/array/map heads", what="round trip, shortest head, independent reader agrees"))
     jobs.append(dict(unit=u, entry="h_cbor_float", unwind=10, timeout=240 if quick else 2400, bounds="every IEEE-754 double (bit pattern unconstrained)", what="smallest lossless form (int / single / double), value preserved, NaN/inf"))
+    for n in ([10] if quick else [10, 12]):
+        un = mkunit(units, L=2, N=n)
+        jobs.append(dict(unit=un, entry="h_cbor_decode_first", unwind=n + 2, timeout=600 if quick else 2400,
+                         bounds="%d arbitrary bytes, first item only (one cbor_stream_decode call)" % n,
+                         what="first item of an arbitrary byte string: in-bounds, string views inside the input with the announced length, registered error otherwise"))
     # NOTE: h_cbor_strings / h_cbor_simple_and_sequence / h_cbor_skip (encoder-driven multi-item harnesses) exhaust 12 GB in CBMC's
     # propositional reduction (three cbor_stream_decode calls, each a 256-way switch); kept in the source, not run.  Restricting the 47
     # callback call sites to their single real target and allocating encoder/decoder from typed pools (both in place) did not change that.
@@ -47,7 +52,7 @@ def spec(tier):
                 bounds="integers/doubles full range; strings up to 300/600 bytes; nesting depth 2/3; sequences of 3",
                 stubs=["ldexp (libm, half-float decoding only): nondet", "base.c, alloc_direct.c, mem0.c"],
                 out=["NOT DECIDED (do not fit: every harness with more than one cbor_stream_decode call, or the decoder on symbolic input bytes, exhausts 12 GB / 240 s): "
-                     "string content round trip, multi-item sequences, skipping nested items, decoder on arbitrary bytes",
+                     "string content round trip, multi-item sequences, skipping nested items, decoder on arbitrary bytes beyond the first item (the first item is decided: h_cbor_decode_first)",
                      "half-precision decoding precision (libm ldexp)"],
                 assumptions=["CBMC --floatbv bit-precise IEEE-754 semantics for double/float conversions"])
     return dict(units=units, jobs=jobs, meta=meta)
